@@ -504,8 +504,19 @@ class Engine:
             self.exec_block(s.orelse)
         self.exec_block(s.finalbody)
 
+    def as_cond(self, v):
+        """Truth value of v; an unknown value is an arbitrary boolean."""
+        if isinstance(v, Unknown):
+            self.fresh_n += 1
+            return SB(z3.Bool('unk!%d' % self.fresh_n))
+        if isinstance(v, (SymList,)):
+            return len(v.items) > 0
+        if is_sym(v) or isinstance(v, (bool, int)):
+            return truth(v)
+        return bool(v)
+
     def exec_if(self, s):
-        c = truth(self.ev_cond(s.test))
+        c = self.as_cond(self.ev_cond(s.test))
         if isinstance(c, bool):
             return self.exec_block(s.body if c else s.orelse)
         t = z3.simplify(c.t)
@@ -603,7 +614,7 @@ class Engine:
             self.fuel -= 1
             if self.fuel < 0:
                 raise Refuse('fuel exhausted in while loop')
-            c = truth(self.ev_cond(s.test))
+            c = self.as_cond(self.ev_cond(s.test))
             if not isinstance(c, bool):
                 t = z3.simplify(c.t)
                 if z3.is_true(t):
@@ -675,6 +686,11 @@ class Engine:
         raise Refuse('del target')
 
     def delitem(self, base, idx, node):
+        if isinstance(base, TrackedDict):
+            if base.on_delete:
+                base.on_delete(self, idx, node)
+            base.forget(idx)
+            return
         raise Refuse('del on ' + type(base).__name__)
 
     def setattr(self, obj, attr, v, node):
@@ -728,6 +744,12 @@ class Engine:
             raise Refuse('list index ' + type(idx).__name__)
         if isinstance(base, SymMem):
             return self.mem_store(base, idx, v, node)
+        if isinstance(base, TrackedDict):
+            if base.on_insert:
+                base.on_insert(self, idx, v, node)
+            if isinstance(idx, (int, SV)) and not base.known(idx):
+                base.members.append(idx)
+            return
         if isinstance(base, DictModel):
             i = base.find(idx)
             if i >= 0:
@@ -894,7 +916,7 @@ class Engine:
         if isinstance(e, ast.Call):
             return self.ev_call(e)
         if isinstance(e, ast.IfExp):
-            c = truth(self.ev_cond(e.test))
+            c = self.as_cond(self.ev_cond(e.test))
             if isinstance(c, bool):
                 return self.ev(e.body if c else e.orelse)
             if any(isinstance(n, ast.Call) for n in ast.walk(e.body)) or any(isinstance(n, ast.Call) for n in ast.walk(e.orelse)):
@@ -1065,6 +1087,13 @@ class Engine:
         if isinstance(l, Unknown) or isinstance(r, Unknown):
             return UNK
         if isinstance(op, (ast.In, ast.NotIn)):
+            if isinstance(r, TrackedDict):
+                if r.known(l):
+                    res = True
+                else:
+                    self.fresh_n += 1
+                    res = SB(z3.Bool('member!%d' % self.fresh_n))
+                return res if isinstance(op, ast.In) else not_(res)
             if isinstance(r, SymList):
                 r = tuple(r.items)
             if is_sym(l) or (isinstance(r, (tuple, list)) and any(is_sym(x) for x in r)):
@@ -1076,6 +1105,13 @@ class Engine:
                     res = and_(cmpop('>=', l, r.start), cmpop('<', l, r.stop))
                 else:
                     res = or_(*[cmpop('==', l, x) for x in r if isinstance(x, (int, SV, SB))])
+                return res if isinstance(op, ast.In) else not_(res)
+            if isinstance(r, TrackedDict):
+                if r.known(l):
+                    res = True
+                else:
+                    self.fresh_n += 1
+                    res = SB(z3.Bool('member!%d' % self.fresh_n))
                 return res if isinstance(op, ast.In) else not_(res)
             if isinstance(r, (TabRef, SymMem, ObjModel)):
                 raise Refuse('membership in model object')
@@ -1131,6 +1167,8 @@ class Engine:
             raise Refuse('memory slice')
         if isinstance(base, TabRef):
             return self.tab_index(base, idx, node)
+        if isinstance(base, TrackedDict):
+            return UNK
         if isinstance(base, DictModel):
             i = base.find(idx)
             if i < 0:
@@ -1225,6 +1263,10 @@ class Engine:
                     return m
             self.oblige('attr_defined', False, node, info=attr)
             raise PathEnd()
+        if isinstance(obj, TrackedDict):
+            if attr == 'get':
+                return CallModel(lambda e, a, k, n: UNK, 'dict.get')
+            raise Refuse('tracked dict method ' + attr)
         if isinstance(obj, DictModel):
             if attr == 'get':
                 def dget(e, args, kwargs, node, obj=obj):
@@ -1483,6 +1525,29 @@ class DictModel:
         return -1
 
 
+class TrackedDict:
+    """A dictionary whose *key set discipline* is under contract: contents are
+    unknown, every insertion / deletion site calls back (site obligations).
+    `members` holds key terms known to be present."""
+
+    def __init__(self, name, on_insert=None, on_delete=None):
+        self.name = name
+        self.on_insert = on_insert
+        self.on_delete = on_delete
+        self.members = []
+
+    def known(self, key):
+        if isinstance(key, int):
+            return any(isinstance(m, int) and m == key for m in self.members)
+        if isinstance(key, SV):
+            return any(isinstance(m, SV) and m.t.eq(key.t) for m in self.members)
+        return False
+
+    def forget(self, key=None):
+        """After a deletion (or a havoc) nothing is known about other terms that may alias the key."""
+        self.members = []
+
+
 class CallModel:
     def __init__(self, handler, name='callmodel'):
         self.handler = handler
@@ -1490,7 +1555,7 @@ class CallModel:
 
 
 def _is_model(a):
-    if is_sym(a) or isinstance(a, (SymList, SymMem, TabRef, ObjModel, Unknown, CallModel, BankRef, BankTuple, BoundModelMethod, DictModel)):
+    if is_sym(a) or isinstance(a, (SymList, SymMem, TabRef, ObjModel, Unknown, CallModel, BankRef, BankTuple, BoundModelMethod, DictModel, TrackedDict)):
         return True
     if isinstance(a, (tuple, list)):
         return any(_is_model(x) for x in a)
